@@ -4,6 +4,9 @@ CONSTANTS
   Pinned = TRUE
   InPlace = FALSE
   Reuse = FALSE
+  WideEnv = TRUE
+  Share = "period"
+  AliasWrite = "none"
   MaxPar = 2
 INVARIANTS TypeOK Linearizable Disciplined
 CONSTRAINT Bounded
